@@ -1,8 +1,8 @@
-(* C01 — namespace and content operations agree with an abstract tree model.  Statements are printed by Check below and compared with C01.expected.  PARTIAL: proved are the directory layer (lookup / insert / remove / listing on the pointer table refine a search tree over cmp_names, for any tree shape), the specification's own invariants, and the refinement of the NAMESPACE: under the representation relation TreeRep (table represents abstract tree; stream bytes abstracted by a content relation with a frame hypothesis) every query returns the specification's result and every successful namespace mutation yields a table representing the specification's new tree, with agreeing refusal kinds.  Also proved (proofs/HistoryRefine.v): the lift to WHOLE HISTORIES from a freshly created file of either version - for every list of the seven namespace mutations, nine queries, open_stream and stream creation at fresh paths, the model's results and the specification's are related call by call (equal refusal kinds, entries equal up to the root's length field) and the final table represents the final tree, up to the first LATE FAILURE (specification Ok, model Err/Panic/OutOfFuel from allocation - not excluded by these theorems) if there is one.  NOT proved: absence of late failures, truncating create_stream, the *_all operations, and the content frame for stream bytes through chains and migrations — those are checked instance by instance: on every step of every generated history the abstraction of the model state equals the specification tree and the specification's result equals the implementation's. *)
+(* C01 — namespace and content operations agree with an abstract tree model.  Statements are printed by Check below and compared with C01.expected.  PARTIAL: proved are the directory layer (lookup / insert / remove / listing on the pointer table refine a search tree over cmp_names, for any tree shape), the specification's own invariants, and the refinement of the NAMESPACE: under the representation relation TreeRep (table represents abstract tree; stream bytes abstracted by a content relation with a frame hypothesis) every query returns the specification's result and every successful namespace mutation yields a table representing the specification's new tree, with agreeing refusal kinds.  Also proved (proofs/HistoryRefine.v): the lift to WHOLE HISTORIES from a freshly created file of either version - for every list of the seven namespace mutations, nine queries, open_stream and stream creation at fresh paths, the model's results and the specification's are related call by call (equal refusal kinds, entries equal up to the root's length field) and the final table represents the final tree, up to the first late failure - and (proofs/Progress.v) late failures do not occur: whenever the specification accepts a covered call on a state reached by a namespace history (up to 6000 calls, i.e. below 109 FAT sectors) the model returns Ok, so the refinement over histories holds with no hypothesis about the model's results.  NOT proved: truncating create_stream, the *_all operations, and the content frame for stream bytes through chains and migrations — those are checked instance by instance: on every step of every generated history the abstraction of the model state equals the specification tree and the specification's result equals the implementation's. *)
 From Cfb.model Require Import Base Names DirEnt State Alloc Dir Mini Store Handle Open Cfb.
 From Cfb.gen Require Import Consts.
 From Cfb.spec Require Import Tree.
-From Cfb.proofs Require Import NamesProofs DirProofs TreeProofs QueryRefine MutRefine ReadonlyTotal HistoryRefine.
+From Cfb.proofs Require Import NamesProofs DirProofs TreeProofs QueryRefine MutRefine ReadonlyTotal HistoryRefine PersistProofs Progress.
 Set Printing Width 110.
 
 (* table lookup with the model's own fuel = search-tree lookup, for ANY tree shape (balance and colour irrelevant) *)
@@ -124,3 +124,27 @@ Theorem C01_history_example : ltac:(let t := type of Example.ex_history in exact
 Proof. exact Example.ex_history. Qed.
 Check C01_history_example.
 Print Assumptions C01_history_example.
+
+(* PROGRESS: on a state reached by a namespace history, whenever the specification accepts a covered call the model returns Ok (no failure in slot allocation, directory growth, sector allocation or write-through) *)
+Theorem C01_accepted_calls_do_not_fail_late : ltac:(let t := type of step_progress in exact t).
+Proof. exact step_progress. Qed.
+Check C01_accepted_calls_do_not_fail_late.
+Print Assumptions C01_accepted_calls_do_not_fail_late.
+
+(* step_agreement with the late-failure alternative removed *)
+Theorem C01_one_step_agreement_without_exception : ltac:(let t := type of step_agreement_total in exact t).
+Proof. exact step_agreement_total. Qed.
+Check C01_one_step_agreement_without_exception.
+Print Assumptions C01_one_step_agreement_without_exception.
+
+(* THE PROPERTY for the namespace: for EVERY history (up to 6000 calls) of the covered calls on a fresh file of either version, all results are related to the specification's and the final table represents the final tree - no hypothesis about the model's results *)
+Theorem C01_histories_refine_spec_unconditionally : ltac:(let t := type of fresh_history_refines_total in exact t).
+Proof. exact fresh_history_refines_total. Qed.
+Check C01_histories_refine_spec_unconditionally.
+Print Assumptions C01_histories_refine_spec_unconditionally.
+
+(* including create_stream where the path is new *)
+Theorem C01_the_same_with_stream_creation_at_fresh_paths : ltac:(let t := type of fresh_history_refines_from_total in exact t).
+Proof. exact fresh_history_refines_from_total. Qed.
+Check C01_the_same_with_stream_creation_at_fresh_paths.
+Print Assumptions C01_the_same_with_stream_creation_at_fresh_paths.
